@@ -36,6 +36,8 @@ type TypeSpec struct {
 	Name         string       `json:"name"`
 	Kind         string       `json:"kind"` // list | map | struct | union | enum
 	Elem         string       `json:"elem,omitempty"`
+	// Key (maps): the key type when it is not String: the name of an earlier enum with string representation
+	Key string `json:"key,omitempty"`
 	ElemNullable bool         `json:"elem_nullable,omitempty"`
 	Fields       []FieldSpec  `json:"fields,omitempty"`
 	Repr         string       `json:"repr,omitempty"` // struct: map|tuple|stringjoin|listpairs; union: keyed|kinded|stringprefix; enum: string|int
@@ -173,7 +175,11 @@ func (s *Schema) Build() (ts *schema.TypeSystem, err error) {
 		case "list":
 			ts.Accumulate(schema.SpawnList(t.Name, t.Elem, t.ElemNullable))
 		case "map":
-			ts.Accumulate(schema.SpawnMap(t.Name, "String", t.Elem, t.ElemNullable))
+			kt := "String"
+			if t.Key != "" {
+				kt = t.Key
+			}
+			ts.Accumulate(schema.SpawnMap(t.Name, kt, t.Elem, t.ElemNullable))
 		case "struct":
 			fs := make([]schema.StructField, len(t.Fields))
 			renames := map[string]string{}
@@ -262,6 +268,7 @@ type GenOpts struct {
 	GenOnly  bool // restrict to the code generator's feature set
 	// NoAnyInUnion steers around the known finding C08-bindnode-any-union-member
 	NoAnyInUnion bool
+	NoEnumKeys   bool // maps keyed by String only
 }
 
 var delims = []string{":", ",", "|", "/", "--"}
@@ -304,6 +311,18 @@ func Draw(t *rapid.T, o GenOpts) Schema {
 		case "list", "map":
 			ty.Elem = anyType("elem")
 			ty.ElemNullable = rapid.Bool().Draw(t, "elemnullable")
+			if kind == "map" && !o.NoEnumKeys {
+				// a quarter of the maps are keyed by an earlier string-represented enum, when there is one
+				var enums []string
+				for _, e := range s.Types {
+					if e.Kind == "enum" && e.Repr == "string" {
+						enums = append(enums, e.Name)
+					}
+				}
+				if len(enums) > 0 && rapid.IntRange(0, 3).Draw(t, "enumkey") == 0 {
+					ty.Key = rapid.SampledFrom(enums).Draw(t, "keytype")
+				}
+			}
 		case "enum":
 			ty.Repr = rapid.SampledFrom([]string{"string", "int"}).Draw(t, "enumrepr")
 			ne := rapid.IntRange(1, 4).Draw(t, "nmembers")
